@@ -114,9 +114,9 @@ func genC05(t *rapid.T) c05Case {
 	case 4:
 		n = 1<<uint(rapid.IntRange(2, maxExp).Draw(t, "exp")) - 1
 	case 5:
-		n = rapid.IntRange(4097, 1<<uint(maxExp)).Draw(t, "n")
+		n = uniformInt(t, 4097, 1<<uint(maxExp), "n")
 	default:
-		n = rapid.IntRange(65, 4096).Draw(t, "n")
+		n = uniformInt(t, 65, 4096, "n")
 	}
 	fams := []string{"explicit", "uniform", "uniform", "biased", "constant", "alternating", "periodic", "tone", "tone", "markov", "sparse", "balanced", "transition"}
 	return c05Case{Seq: gen.DrawSeq(t, n, fams), Bytes: rapid.Bool().Draw(t, "bytes"), Procs: rapid.SampledFrom([]int{0, 0, 1, 2, 3, 5, 6, 7, 12, 16}).Draw(t, "gomaxprocs")}
